@@ -83,6 +83,12 @@ def build_ops(w):
     ops.append(("scan:TXT1:notready-resumed", base + "nr=0.1.1"))
     ops.append(("scan:TXT1:notready-first-resumed", base + "nr=0.0.2"))
     ops.append(("scan:TXT1:notready-abandoned", base + "nr=0.1.1 abandon=0"))
+    # executable images through the iterator: entry point / module state computed from the first block, then suspended
+    for b, split in (("ELF", "200,128"), ("PE", "256,100")):
+        eb = "scan target=s0 via=blocks flags=0 timeout=0 data=%s blocks=%s " % (yv.hx(bufs()[b]), split)
+        ops.append(("scan:%s:blocks" % b, eb))
+        ops.append(("scan:%s:notready-resumed" % b, eb + "nr=0.1.1"))
+        ops.append(("scan:%s:notready-abandoned" % b, eb + "nr=0.1.1 abandon=0"))
     ops.append(("scan:PE:fast", "scan target=s0 via=mem flags=1 timeout=0 data=%s" % yv.hx(bufs()["PE"])))
     ops.append(("defs:v1", "defs 0 ext s " + yv.hx(b"v1")))
     ops.append(("defs:w", "defs 0 ext s " + yv.hx(b"w")))
@@ -258,7 +264,7 @@ def main():
         ck.sample([ops[i][0] for i in h])
     ck.cov["rule"] = ("alphabet = scans of {PE, ELF, text with/without matches, empty, 12 x 'q' (match limit 8), chained hex} x outcomes "
                       "{normal, abort/error at every message index, timeout at every poll index (virtual clock), too-many-matches "
-                      "abort/error, not-ready resumed/abandoned} + scanner-level defines; all sequences of length L unmerged, BFS to "
+                      "abort/error, not-ready resumed/abandoned (text, ELF and PE through a two-block iterator)} + scanner-level defines; all sequences of length L unmerged, BFS to "
                       "depth D merged on the persistent fields of YR_SCAN_CONTEXT; oracle = same op on a fresh scanner with the same "
                       "settings, and zero live allocations after destroy")
     ck.assumptions += ["built with scaled limits (YR_MAX_STRING_MATCHES=8, chaining threshold 3): same source, smaller constants",
